@@ -100,3 +100,13 @@ size_t strcspn(const char *s, const char *reject)
 				return i;
 	return i;
 }
+
+char *strncpy(char *dst, const char *src, size_t n)
+{
+	size_t i;
+	for (i = 0; i < n && src[i]; i++)
+		dst[i] = src[i];
+	if (i < n)
+		memset(dst + i, 0, n - i);      /* zero padding, as the standard requires */
+	return dst;
+}
